@@ -13,8 +13,8 @@
 
 using namespace verif;
 
-enum Kind : uint32_t { PUSH_COPY, PUSH_MOVE, EMPLACE, POP, RESIZE, RESIZE_V, CLEAR, COPY_CONS, MOVE_CONS, COPY_ASSIGN, MOVE_ASSIGN, SWAP, SELF_ASSIGN, NKINDS };
-static const char *kind_name[] = {"push_copy", "push_move", "emplace_back", "pop", "resize", "resize_fill", "clear", "copy_construct", "move_construct", "copy_assign", "move_assign", "swap", "self_assign"};
+enum Kind : uint32_t { PUSH_COPY, PUSH_MOVE, EMPLACE, POP, RESIZE, RESIZE_V, CLEAR, COPY_CONS, MOVE_CONS, COPY_ASSIGN, MOVE_ASSIGN, SWAP, SELF_ASSIGN, DETACH, NKINDS };
+static const char *kind_name[] = {"push_copy", "push_move", "emplace_back", "pop", "resize", "resize_fill", "clear", "copy_construct", "move_construct", "copy_assign", "move_assign", "swap", "self_assign", "detach"};
 
 static inline uint32_t mkop(uint32_t k, uint32_t a, uint32_t v = 0, uint32_t n = 0) { return k | a << 8 | v << 12 | n << 16; }
 
@@ -26,14 +26,15 @@ template<class E> struct VecA {
 	static bool supports(uint32_t k) { return true; }
 	static constexpr size_t inline_cap = 0;
 	static void pop(V &v, int expect) { E x = v.pop(); if(val(x) != expect) throw Violation{"C13", "vector.pop:value", "pop() returned the wrong element"}; }
-	static void push_copy(V &v, const E &e) { E &r = v.push(e); if(&r != &v.back()) throw Violation{"C13", "vector.push:ref", "push returned a reference that is not back()"}; }
-	static void push_move(V &v, E &&e) { v.push(std::move(e)); }
+	// value 1 goes through push(), value 2 through the push_back() spelling
+	static void push_copy(V &v, const E &e) { E &r = val(e) == 1 ? v.push(e) : v.push_back(e); if(&r != &v.back()) throw Violation{"C13", "vector.push:ref", "push returned a reference that is not back()"}; }
+	static void push_move(V &v, E &&e) { E &r = val(e) == 1 ? v.push(std::move(e)) : v.push_back(std::move(e)); if(&r != &v.back()) throw Violation{"C13", "vector.push:ref", "push(T&&) returned a reference that is not back()"}; }
 	static constexpr bool has_eq = true, has_frontback = true, has_data = true;
 };
 template<class E, size_t N> struct SmallA {
 	using V = frg::small_vector<E, N, TrackAlloc>;
 	static const char *name() { return "small_vector"; }
-	static bool supports(uint32_t k) { return k != CLEAR && k != COPY_ASSIGN && k != MOVE_ASSIGN && k != SELF_ASSIGN; }
+	static bool supports(uint32_t k) { return k != CLEAR && k != COPY_ASSIGN && k != MOVE_ASSIGN && k != SELF_ASSIGN && k != DETACH; }
 	static constexpr size_t inline_cap = N;
 	static void pop(V &v, int) { v.pop_back(); }
 	static void push_copy(V &v, const E &e) { E &r = v.push_back(e); if(&r != &v.back()) throw Violation{"C13", "small_vector.push:ref", "push_back returned a reference that is not back()"}; }
@@ -72,7 +73,7 @@ struct SeqHarness : HarnessBase {
 			if(cp == 0) cp = A::inline_cap;
 			if((int)sz < cap_size) {
 				for(uint32_t v = 1; v <= 2; v++) { out.push_back(mkop(PUSH_COPY, a, v)); }
-				out.push_back(mkop(PUSH_MOVE, a, 1));
+				out.push_back(mkop(PUSH_MOVE, a, 1)); out.push_back(mkop(PUSH_MOVE, a, 2));
 				out.push_back(mkop(EMPLACE, a, 2));
 			}
 			if(sz) out.push_back(mkop(POP, a));
@@ -82,6 +83,7 @@ struct SeqHarness : HarnessBase {
 				if(n > sz) out.push_back(mkop(RESIZE_V, a, 2, (uint32_t)n));
 			}
 			if(A::supports(CLEAR) && sz) out.push_back(mkop(CLEAR, a));
+			if(A::supports(DETACH)) out.push_back(mkop(DETACH, a));
 			out.push_back(mkop(COPY_CONS, a));
 			out.push_back(mkop(MOVE_CONS, a));
 			if(A::supports(COPY_ASSIGN)) { out.push_back(mkop(COPY_ASSIGN, a)); out.push_back(mkop(MOVE_ASSIGN, a)); out.push_back(mkop(SELF_ASSIGN, a)); }
@@ -118,6 +120,15 @@ struct SeqHarness : HarnessBase {
 			s(b).~V(); alive[b] = false; new(store[b]) V(TrackAlloc{}); alive[b] = true; ref[b].clear();
 		} break;
 		case SWAP: { using std::swap; swap(s(0), s(1)); std::swap(ref[0], ref[1]); break; }
+		case DETACH: if constexpr(requires(V &x) { x.detach(); }) {
+			// detach() hands the buffer and its elements to the caller, who destroys and frees them; the vector is empty and usable
+			E *p = s(a).data(); size_t n = s(a).size();
+			s(a).detach();
+			if(s(a).size() != 0 || s(a).data() != nullptr) throw Violation{"C13", "vector.detach:state", "a detached vector is not empty"};
+			for(size_t i = 0; i < n; i++) { if(val(p[i]) != ref[a][i]) throw Violation{"C13", "vector.detach:contents", "the detached buffer does not hold the elements"}; p[i].~E(); }
+			if(p) TrackAlloc{}.free(p);
+			ref[a].clear();
+		} break;
 		}
 	}
 	void check_state() {
@@ -140,7 +151,9 @@ struct SeqHarness : HarnessBase {
 			if(!r.empty()) {
 				if(val(x.front()) != r.front() || &x.front() != &x[0]) throw Violation{"C13", N + ":front", "front() is not the first element"};
 				if(val(x.back()) != r.back() || &x.back() != &x[r.size() - 1]) throw Violation{"C13", N + ":back", "back() is not the last element"};
+				if(&cx.front() != &x[0] || &cx.back() != &x[r.size() - 1]) throw Violation{"C13", N + ":const-front-back", "const front()/back() designate other objects than the non-const ones"};
 			}
+			if(cx.data() != x.data() || cx.begin() != x.begin()) throw Violation{"C13", N + ":const-data", "const data()/begin() differ from the non-const ones"};
 		}
 		if constexpr(A::has_eq) {
 			bool eq = ref[0] == ref[1];
